@@ -70,7 +70,14 @@ package gcetcbendorsement
 //@   loop 1 invariant golden != nil && pbok[golden] && golden.Tdx != nil && (ref(mrtds) == 0 || fresh(mrtds))
 //@   loop 1 invariant 0 <= k && k < len(mrtds) ==> exists(j, 0 <= j && j < len(golden.Tdx.Measurements) && tdxRow(golden.Tdx.Measurements[j], mrtds[k], opts.RAMGiB))
 
+//@ func extractEndorsement
+//@   requires opts != nil
+//@   modifies *
+//@   assigns[C09] nothing
+//@   ensures[C09] err == nil ==> result != nil
+
 //@ func SevValidate
+//@   assigns[C09] nothing
 //@   modifies *
 //@   requires opts != nil && attestation != nil
 //@   sweep[C07]
@@ -80,6 +87,7 @@ package gcetcbendorsement
 //@   ensures[C02] err == nil ==> vfVmsas == opts.ExpectedLaunchVmsas
 
 //@ func TdxValidate
+//@   assigns[C09] nothing
 //@   modifies *
 //@   requires opts != nil
 //@   sweep[C07]
